@@ -122,8 +122,10 @@ func verifReadInit(t *table, offset wal.Offset) {
 }
 
 func verifRead(t *table, offset wal.Offset) {
-	verifReadOffsets.Store(verifTableKey{t.db, t.Name}, append(wal.Offset(nil), offset...))
+	// count first, publish the offset second: between the two the table must not look caught up
+	// (offset at the WAL's end with "read" still equal to "processed")
 	verifCount("read", t)
+	verifReadOffsets.Store(verifTableKey{t.db, t.Name}, append(wal.Offset(nil), offset...))
 }
 
 // VerifQuiescent reports whether the (non-follower) table has read every entry
